@@ -51,9 +51,14 @@ def build_impl(spec):
                 # behave exactly like the directly constructed object (the interpolant has to be rebuilt).
                 ts = [p[0] for p in pts] + [spec['tref']]
                 narrow = None if rng is None else (max(rng[0], min(ts)), min(rng[1], max(ts)))
-                first = cls(None if spec['href'] is None else spec['href'] + 1.0, spec['sref'],
-                            dict((p[0], p[1] + 0.5) for p in pts), spec['tref'], narrow)
-                first.update(obj, overwrite=True)
+                if spec['via_update'] == 'range':
+                    # identical data, only the range grows with the merge
+                    first = cls(spec['href'], spec['sref'], dict((p[0], p[1]) for p in pts), spec['tref'], narrow)
+                    first.update(obj)
+                else:
+                    first = cls(None if spec['href'] is None else spec['href'] + 1.0, spec['sref'],
+                                dict((p[0], p[1] + 0.5) for p in pts), spec['tref'], narrow)
+                    first.update(obj, overwrite=True)
                 obj = first
         return obj, 'ok'
     except Exception as e:
